@@ -91,7 +91,7 @@ func exerciseInput(out *json.Encoder, in c08Input, calls, accepts, rejects *int6
 			})
 			guarded(out, idx, "Build(parsed)", calls, func() { graph.NewWeightedAuthorizationModelGraphBuilder().Build(m) })
 		}
-	case "modfiles":
+	case "modfiles", "mergesets":
 		mods := make([]transformer.ModuleFile, len(in.Files))
 		for i, f := range in.Files {
 			mods[i] = transformer.ModuleFile{Name: f.Name, Contents: f.Contents}
